@@ -93,7 +93,7 @@ static size_t v_w_setEndOfPropertyTLV(void *b, size_t off) {
 }
 
 static int v_ctx_obj;
-#define V_RX_N 64              /* answerHello reads the base header and the Discover upper header only (its contract requires 36 readable bytes) */
+#define V_RX_N 36              /* answerHello reads the base header and the Discover upper header only (its contract requires 36 readable bytes) */
 
 struct in_hello {
     struct v_cfg cfg;
@@ -125,7 +125,7 @@ void h_answer_hello(void) {
     lltd_iface_state st; V_ZERO(st);
     v_build_state(&st, &in.is, g_ctx);
     V_ASSUME(ST_SHAPE(&st));
-    uint8_t *f = in.frame;
+    V_EXACT_OBJECT(f, in.frame, V_RX_N);
     V_ASSUME(f[15] == 0 || f[15] == 1);                       /* a Discover of a discovery service (parseFrame's dispatch) */
     V_ASSUME(PRE_answerHello(&st, f));                        /* established by parseFrame's pre-step, proved at its call site */
     V_ASSUME(in.allocs0 < 1000 && in.tx0 < 1000);
